@@ -8,7 +8,12 @@ THEOREMS = ["inv_init", "inv_step", "inv_tx", "inv_reachable", "unique_index_exa
             "set_index_exact", "no_empty_keys", "child_data_inside_entity", "registered_values", "indexed_values_fit",
             "oversize_rejected", "index_paths_distinct",
             "schema_index_paths_distinct", "index_paths_off_entities", "uniq_injective", "unique_holder", "dup_rejected",
-            "empty_rejected", "error_changes_nothing", "step_refines_spec", "render_eq_spec", "no_panic"]
+            "empty_rejected", "error_changes_nothing", "step_refines_spec", "render_eq_spec", "no_panic",
+            # store chains of any depth (lean/StorageModel/C03/Chain.lean, ChainInv.lean)
+            "chain_inv_init", "chain_inv_step", "chain_inv_tx", "chain_inv_reachable", "chain_delete_cleans_root_and_child",
+            "chain_delete_partial", "chain_unique_index_exact", "chain_set_index_exact", "chain_no_empty_keys",
+            "chain_dup_rejected", "chain_empty_rejected", "chain_update_dup_rejected", "chain_error_changes_nothing",
+            "deep_delete_leaves_entries", "uncovered_create_breaks_root"]
 
 PLAIN_SCHEMA = "6e616d65+6e616d65+6e616d65+616c696173+616c696173+616c696173+726f6c6573+726f6c6573+726f6c6573+746167+746167"
 
@@ -17,7 +22,39 @@ def _ops(case):
     return [op for tx in case.split(" ")[-1].split("|") for op in tx.split(",")]
 
 
+def chain_stats(case, impl):
+    """`k` lines: three-level store chain (harness/c03_chain.go)"""
+    st = {}
+
+    def inc(k, v=1):
+        st[k] = st.get(k, 0) + v
+
+    txs = case.split(" ")[-1].split("|")
+    inc("histories")
+    inc("chain_histories")
+    inc("transactions", len(txs))
+    deep = set()
+    for op in _ops(case):
+        f = op.split(":")
+        if f[0] == "c":
+            lvl = (len(f) - 2) // 2 - 1
+            inc("chain_op_create_through_level_%d" % lvl)
+            if lvl == 2:
+                deep.add(f[1])
+        elif f[0] == "u":
+            inc("chain_op_%s_through_level_%d" % ("update_full" if f[2] == "*" else "patch", (len(f) - 3) // 2 - 1))
+        else:
+            inc("chain_op_delete_through_level_%s" % f[2])
+            if f[1] in deep:
+                inc("chain_op_delete_of_id_created_through_grandchild_store")
+    for r in lib.parse_records(impl) or []:
+        inc("res_" + r["res"].split("@")[0].replace(":", "_"))
+    return st
+
+
 def stats_of(case, impl):
+    if case.startswith("k "):
+        return chain_stats(case, impl)
     st = {}
 
     def inc(k, v=1):
@@ -109,12 +146,38 @@ def stats_of(case, impl):
 
 def nontrivial(case, impl, st):
     """at least two committed transactions and (a rejected dup/null write or a value hand-over or a re-creation)"""
+    if case.startswith("k "):
+        return st.get("res_ok", 0) >= 2 and st.get("res_err_dup", 0) + st.get("res_err_null", 0) > 0
     return st.get("res_ok", 0) >= 2 and (st.get("res_err_dup", 0) + st.get("res_err_null", 0) > 0
                                          or st.get("unique_values_handed_over_between_entities", 0) > 0
                                          or st.get("ids_recreated_after_delete", 0) > 0)
 
 
-MATCHERS = {}
+DEEP_INDEX_PREFIXES = tuple(k + ":75/696e6465786573/7468696e6773/" + sym for k in ("B", "K") for sym in ("7532", "7332"))
+
+
+def deep_level_index_entries_survive_delete(case, info):
+    """a `k` history whose FIRST disagreement with the spec is: a committed transaction containing a delete,
+    after which the real database holds exactly the spec's lines plus entries of the indexes u2 / s2 —
+    the indexes declared by the store at depth 2 (BaseStore.DeleteById visits the constraints of the
+    root and of the stores registered with it only)"""
+    if not case.startswith("k "):
+        return False
+    ri, rs = lib.parse_records(info["impl"]), lib.parse_records(info["spec"])
+    if ri is None or rs is None or len(ri) != len(rs):
+        return False
+    txs = case.split(" ")[-1].split("|")
+    for t, (a, b) in enumerate(zip(ri, rs)):
+        if lib.res_ok(a["res"], b["res"]) and set(a["dump"]) == set(b["dump"]) and a["reads"] == b["reads"]:
+            continue
+        if a["res"] != "ok" or b["res"] != "ok" or not any(o.startswith("d:") for o in txs[t].split(",")):
+            return False
+        extra, missing = set(a["dump"]) - set(b["dump"]), set(b["dump"]) - set(a["dump"])
+        return bool(extra) and not missing and all(l.startswith(DEEP_INDEX_PREFIXES) for l in extra)
+    return False
+
+
+MATCHERS = {"deep_level_index_entries_survive_delete": deep_level_index_entries_survive_delete}
 
 RULE = ("random histories (seeded) of 5-24 (quick) / 5-40 (thorough) transactions with 1-4 operations each over 3-4 ids, "
         "3 unique-index values (shared by name and alias) + empty/nil, 3 role values (+ rarely the empty role, rarely the blank id): "
